@@ -1,7 +1,7 @@
 (* C20 — stand-alone array helpers agree with their definitions.  Statements only. *)
 From Coq Require Import List ZArith Bool.
 From GL Require Import Lib.Arr Lib.Blocks Model.Dom Model.Scalar Model.Nanops Spec.Defs Spec.Exec Proofs.NanopsProofs Proofs.NanopsExt Model.Helpers Proofs.HelperProofs Proofs.MonoProofs Model.Moments Proofs.MomentsProofs
-  Proofs.GenTie Proofs.TieNanops Proofs.TieMoments Gen.ReductionOpsGen.
+  Proofs.GenTie Proofs.TieNanops Proofs.TieNanopsMoments Gen.ReductionOpsGen.
 Import ListNotations.
 Open Scope Z_scope.
 
@@ -118,8 +118,8 @@ Proof. exact (two_pass_centre c l). Qed.
 Print Assumptions C20_two_pass_around_a_rounded_mean.
 
 (* Tie B: nanmean / nanvar / nanstd (and mean_from_sum_count) read, statement by statement, as the model assumes *)
-Theorem C20_moments_are_the_source's : Gen.TablesGen.gen_moment_formulas = moment_formulas.
-Proof. exact tie_moment_formulas. Qed.
+Theorem C20_moments_are_the_source's : Gen.TablesGen.gen_nanops_moments = nanops_moments.
+Proof. exact tie_nanops_moments. Qed.
 Print Assumptions C20_moments_are_the_source's.
 
 Example C20_moments_example :
